@@ -38,3 +38,25 @@ func init() {
 		env.Close()
 	}
 }
+
+func init() {
+	helpers["dbg-daemon"] = func(args []string) {
+		before := childPids()
+		env, err := newEnv(container.Builder{})
+		fmt.Println("env", err)
+		initPid := 0
+		for p := range childPids() {
+			if !before[p] {
+				initPid = p
+			}
+		}
+		for _, sc := range []string{"daemon;sleep 30000;exit 0", "fork;setsid;sleep 30000;endfork;fork;setpgid;ignore 15;sleep 30000;endfork;sleep 40;exit 0"} {
+			t := time.Now()
+			r, out := env.runProbe(RunSpec{Script: sc, Timeout: 5 * time.Second}, false)
+			fmt.Println("run", r, out, time.Since(t))
+			time.Sleep(100 * time.Millisecond)
+			fmt.Println("init", initPid, "children", childrenOf(initPid), "ping", env.Ping())
+		}
+		env.Close()
+	}
+}
